@@ -239,7 +239,81 @@ func nontrivialStream(s *gen.Stream) bool {
 	return (len(s.Units) >= 2 && len(pids) >= 2) || multi
 }
 
+// twoAtOnceCase: a PMT PID is already sending when the capture starts, its first unit lies before the PAT that announces the PID.
+// The unit that follows the PAT arrives in one packet and is complete at once — that packet ends two units, and the second one
+// holds several sections. Every section of every unit has to be delivered, once and in order.
+func twoAtOnceCase(c *mon.Ctx, idx int64, r *rand.Rand) {
+	pmtPID := uint16(0x100 + r.IntN(0x800))
+	type up struct {
+		pid  uint16
+		pay  []byte
+		secs []*astits.PSISection
+	}
+	mk := func(serial, nsec int) up {
+		var secs []*astits.PSISection
+		for q := 0; q < nsec; q++ {
+			secs = append(secs, gen.SimpleSection(r, refts.KindPMT, serial*8+q, r.IntN(12)))
+		}
+		u := gen.NewPSIUnit(r, pmtPID, serial, secs, 0, false)
+		return up{pmtPID, u.Payload, u.Sections}
+	}
+	pat := gen.SimpleSection(r, refts.KindPAT, 1, 0)
+	pat.Syntax.Data.PAT.Programs = []*astits.PATProgram{{ProgramNumber: 1, ProgramMapID: pmtPID}}
+	units := []up{mk(1, 1), {0, gen.NewPSIUnit(r, 0, 1, []*astits.PSISection{pat}, 0, false).Payload, nil}, mk(2, 2+r.IntN(3)), mk(3, 1+r.IntN(2))}
+	if idx%2 == 1 {
+		units = units[:3] // the stream ends right after the packet that completed two units
+	}
+	var stream []byte
+	var want []*astits.PMTData
+	cc := map[uint16]uint8{}
+	for _, u := range units {
+		if len(u.pay) > 184 {
+			return
+		}
+		b, _ := refts.EncodePacket(gen.BuildPacket(u.pid, cc[u.pid], true, u.pay, nil, true), nil)
+		cc[u.pid]++
+		stream = append(stream, b...)
+		for _, sec := range u.secs {
+			want = append(want, sec.Syntax.Data.PMT)
+		}
+	}
+	run := RunDemux(stream, baseCfg("data"))
+	data := map[string]any{"stream": mon.Hex(stream, 1200)}
+	c.Count("streams_where_one_packet_completes_two_units")
+	if run.Panic != "" {
+		c.Violate("C02/panic", "two-at-once", idx, run.Panic, data)
+		return
+	}
+	if errs := run.Errors(); len(errs) > 0 {
+		c.Violate("C02/error-on-wellformed-stream", "two-at-once", idx, errs[0].Error(), data)
+		return
+	}
+	var got []*astits.PMTData
+	for _, d := range run.Datas() {
+		if d.PID == pmtPID && d.PMT != nil {
+			got = append(got, d.PMT)
+		}
+	}
+	if len(got) != len(want) {
+		c.Violate("C02/unit-missing:PSI:two-units-completed-by-one-packet", "two-at-once", idx, fmt.Sprintf("%d PMT sections delivered, the stream carries %d", len(got), len(want)), data)
+		return
+	}
+	for k := range want {
+		if d := mon.Diff(got[k], want[k], nil); d != "" {
+			c.Violate("C02/unit-differs:PSI:two-units-completed-by-one-packet", "two-at-once", idx, fmt.Sprintf("section %d: %s", k, d), data)
+			return
+		}
+	}
+	c.Add("sections_of_units_completed_in_pairs_compared", int64(len(want)))
+}
+
 func runC02(c *mon.Ctx) {
+	nt := c.Pick(300, 20000)
+	for i := int64(0); i < nt; i++ {
+		if c.Mine("two-at-once", i) {
+			twoAtOnceCase(c, i, c.Rng("two-at-once", i))
+		}
+	}
 	n := c.Pick(3000, 150000)
 	for i := int64(0); i < n; i++ {
 		if !c.Mine("streams", i) {
